@@ -70,6 +70,10 @@ LawElementValue ==     \* the value an element converts to is a System value who
         q == ParseTemporalLit(cs.canon)
     IN q.ok /\ q.v = v /\ (cs.el.us % 1000 = 0 => ElMatches(cs.el, v))
        /\ (ProtoPrecOfSys(v.t, v.p) = (IF cs.el.prec = "MICROSECOND" THEN "MILLISECOND" ELSE cs.el.prec))
+LawScalar ==           \* every scalar element has a System value, and its canonical literal (where one exists) denotes it
+  cs.kind = "proto-precision" /\ cs.sub = "fromscalar" =>
+    LET v == SysOfScalar(cs.el)
+    IN v.t \in {"b", "i", "s", "d", "q"} /\ (v.t \in {"b", "s"} => ParseLit(CanonLit(v)).v = v)
 LawProtoToExpr ==      \* every expression of the "to" direction has a value of the announced kind
   cs.kind = "proto-precision" /\ cs.sub = "to" =>
     LET p == ValueOfExpr(cs.expr)
@@ -103,7 +107,7 @@ LawNarrowDomain ==     \* every generated value is a value of the source type
 ASSUME LawPrecisionBijective
 ASSUME LawNarrowTable
 
-Laws == /\ LawElementValue /\ LawProtoToExpr /\ LawFhirText /\ LawFhirParseTexts
+Laws == /\ LawElementValue /\ LawScalar /\ LawProtoToExpr /\ LawFhirText /\ LawFhirParseTexts
         /\ LawNarrowSmall /\ LawNarrowDomain
         /\ LawDecodeEncode /\ LawOrdinaryIntact /\ LawEncodeOfDecode /\ LawTokenCount
         /\ LawNumberCanon /\ LawDecimalExact
